@@ -243,6 +243,11 @@ func (g *glAnalysis) paramReadOnly(p *ssa.Parameter, why *string, depth int) boo
 }
 
 func isInitFunc(fn *ssa.Function) bool {
+	// the package initialiser and init#k functions - not a method that happens to be called init
+	// (lengthCodec.init, literalCodec.init, ...)
+	if fn.Signature.Recv() != nil || fn.Parent() != nil {
+		return false
+	}
 	return fn.Name() == "init" || strings.HasPrefix(fn.Name(), "init#")
 }
 
